@@ -12,6 +12,9 @@ pub trait TF: Send + Sync {
     const NAME: &'static str;
     fn enc(key: &[u8], tw: [u64; 2], block: &[u8]) -> Vec<u8>;
     fn dec(key: &[u8], tw: [u64; 2], block: &[u8]) -> Vec<u8>;
+    /// the slice entry points of the cipher traits (encrypt_blocks / decrypt_blocks) on `data` = n blocks
+    fn enc_blocks(key: &[u8], tw: [u64; 2], data: &[u8]) -> Vec<u8>;
+    fn dec_blocks(key: &[u8], tw: [u64; 2], data: &[u8]) -> Vec<u8>;
 }
 macro_rules! tf {
     ($k:ident, $ty:ty, $n:expr, $name:expr) => {
@@ -30,6 +33,18 @@ macro_rules! tf {
                 let mut b = GenericArray::clone_from_slice(block);
                 c.decrypt_block(&mut b);
                 b.to_vec()
+            }
+            fn enc_blocks(key: &[u8], tw: [u64; 2], data: &[u8]) -> Vec<u8> {
+                let c = <$ty>::with_tweak(GenericArray::from_slice(key), tw[0], tw[1]);
+                let mut bs: Vec<_> = data.chunks($n).map(|b| GenericArray::clone_from_slice(b)).collect();
+                c.encrypt_blocks(&mut bs);
+                bs.iter().flat_map(|b| b.to_vec()).collect()
+            }
+            fn dec_blocks(key: &[u8], tw: [u64; 2], data: &[u8]) -> Vec<u8> {
+                let c = <$ty>::with_tweak(GenericArray::from_slice(key), tw[0], tw[1]);
+                let mut bs: Vec<_> = data.chunks($n).map(|b| GenericArray::clone_from_slice(b)).collect();
+                c.decrypt_blocks(&mut bs);
+                bs.iter().flat_map(|b| b.to_vec()).collect()
             }
         }
     };
@@ -216,12 +231,55 @@ fn run_one<T: TF>(rep: &mut Report, check: &str, thorough: bool) {
     }
 }
 
+/// slice entry points: 0..=5 blocks of distinct contents, both directions, against the model per block
+fn run_slices<T: TF>(rep: &mut Report, check: &str) {
+    let n = T::N;
+    let key = patt(n, 21);
+    let tw = [0x1111_2222_3333_4444u64, 0xaaaa_bbbb_cccc_dddd];
+    for nb in 0..=5usize {
+        let data: Vec<u8> = (0..nb * n).map(|i| (i as u8).wrapping_mul(13) ^ ((i / n) as u8).wrapping_mul(0x5b)).collect();
+        rep.evaluations += 1;
+        rep.nontrivial += 1;
+        let want_e: Vec<u8> = data.chunks(n).flat_map(|b| vref::threefish::encrypt(&key, tw, b)).collect();
+        let want_d: Vec<u8> = data.chunks(n).flat_map(|b| vref::threefish::decrypt(&key, tw, b)).collect();
+        let r = guarded(|| {
+            let e = T::enc_blocks(&key, tw, &data);
+            let d = T::dec_blocks(&key, tw, &data);
+            let de = T::dec_blocks(&key, tw, &e);
+            let ed = T::enc_blocks(&key, tw, &d);
+            (e, d, de, ed)
+        });
+        let replay = json!({"engine":"E","check":check,"cipher":T::NAME,"api":"encrypt_blocks/decrypt_blocks","blocks":nb});
+        let lc = check.to_lowercase();
+        match r {
+            Err(p) => rep.violation(&format!("{}:{}:blocks-api:panic:{}", lc, T::NAME, panic_class(&p)), format!("{} blocks: panic {}", nb, p), replay),
+            Ok((e, d, de, ed)) => {
+                if check == "C09" {
+                    if e != want_e {
+                        rep.violation(&format!("c09:{}:blocks-api:encrypt-mismatch", T::NAME), format!("encrypt_blocks over {} blocks differs from the model", nb), replay);
+                    }
+                } else {
+                    if de != data || ed != data {
+                        rep.violation(&format!("c10:{}:blocks-api:not-identity", T::NAME), format!("decrypt_blocks(encrypt_blocks(x)) or the other order is not the identity on {} blocks", nb), replay.clone());
+                    }
+                    if d != want_d {
+                        rep.violation(&format!("c10:{}:blocks-api:decrypt-mismatch", T::NAME), format!("decrypt_blocks over {} blocks differs from the model", nb), replay);
+                    }
+                }
+            }
+        }
+    }
+}
+
 pub fn run(check: &str, tier: &str, config: &str) -> Report {
     let mut rep = Report::new(check, tier, config);
     let th = tier == "thorough";
-    rep.rule = "per block size: union of complete products K x {t0} x {b0,b1}, {k0,k1} x T x {b0,b1}, {k0,k1} x {t0,t1} x B with K = {0, 1^n, every one-hot key bit, each word all-ones, a key whose words XOR to C240 (parity word 0)}, T = {(0,0), (max,max), every one-hot of the 128 tweak bits, (x,x) (third tweak word 0), ...}, B = {0, 1^n, every one-hot block bit, each word all-ones}; thorough adds one-cold keys/blocks/tweaks, 64 patterned values and sparse cross products; oracle vref::threefish (round loop, subkeys on the fly, spec permutation); C10 checks dec(enc(x)) = x, enc(dec(x)) = x and dec against the model; distinct_nontrivial = distinct expected ciphertexts".into();
+    rep.rule = "per block size: union of complete products K x {t0} x {b0,b1}, {k0,k1} x T x {b0,b1}, {k0,k1} x {t0,t1} x B with K = {0, 1^n, every one-hot key bit, each word all-ones, a key whose words XOR to C240 (parity word 0)}, T = {(0,0), (max,max), every one-hot of the 128 tweak bits, (x,x) (third tweak word 0), ...}, B = {0, 1^n, every one-hot block bit, each word all-ones}; thorough adds one-cold keys/blocks/tweaks, 64 patterned values and sparse cross products; oracle vref::threefish (round loop, subkeys on the fly, spec permutation); C10 checks dec(enc(x)) = x, enc(dec(x)) = x and dec against the model; both checks also drive the slice entry points encrypt_blocks / decrypt_blocks on 0..=5 blocks; distinct_nontrivial = distinct expected ciphertexts".into();
     run_one::<T256>(&mut rep, check, th);
     run_one::<T512>(&mut rep, check, th);
     run_one::<T1024>(&mut rep, check, th);
+    run_slices::<T256>(&mut rep, check);
+    run_slices::<T512>(&mut rep, check);
+    run_slices::<T1024>(&mut rep, check);
     rep
 }
